@@ -35,7 +35,7 @@ N(s) == Len(s.plan)
 
 \* workload as the controller finder sees it (pkg/util/controller_finder.go getKruiseCloneSet)
 WlCanaryRev(s)  == s.wl.updRev
-WlInRollback(s) == s.wl.inprog /\ s.wl.stableRev = s.wl.updRev /\ s.wl.stUpdated # s.wl.stRepl
+WlInRollback(s) == s.wl.inprog /\ s.wl.stableRev = s.wl.updRev /\ s.wl.stUpdated # s.wl.stRepl /\ s.wl.kind # "DaemonSet"
 
 EmptySub(ro) == [ro EXCEPT !.hasSub = FALSE, !.step = 0, !.state = "", !.next = 0, !.fstep = "", !.hashOk = FALSE,
                            !.hashSet = FALSE, !.canaryRev = 0, !.stableRev = 0, !.podHash = 0, !.fresh = FALSE, !.rid = ""]
@@ -51,8 +51,12 @@ GoneBr == [exists |-> FALSE, deleting |-> FALSE, finalizer |-> FALSE, planOk |->
            plan |-> <<>>, thrKind |-> "none", thrVal |-> 0]
 
 \* the rollout-id the Rollout controller derives from the workload (rollout_status.go getRolloutID)
-RidName(rev) == CASE rev = 1 -> "v1" [] rev = 2 -> "v2" [] rev = 3 -> "v3" [] OTHER -> ""
-WlRolloutID(s) == IF s.wl.rid # "" THEN s.wl.rid ELSE RidName(WlCanaryRev(s))
+\* CloneSet / DaemonSet use the hash suffix of the update revision, StatefulSet-like workloads its full name
+RidName(kind, rev) ==
+  IF kind \in {"StatefulSet", "AdvStatefulSet", "DaemonSet"}   \* (the StatefulSet-like finder also picks up DaemonSets)
+  THEN CASE rev = 1 -> "demo-v1" [] rev = 2 -> "demo-v2" [] rev = 3 -> "demo-v3" [] OTHER -> ""
+  ELSE CASE rev = 1 -> "v1" [] rev = 2 -> "v2" [] rev = 3 -> "v3" [] OTHER -> ""
+WlRolloutID(s) == IF s.wl.rid # "" THEN s.wl.rid ELSE RidName(s.wl.kind, WlCanaryRev(s))
 
 \* ------------------------------------------------------------ grace wrapper
 (* grace.RunWithGraceSeconds(key, action, f): f() first; if it modified something an expectation is
@@ -404,11 +408,24 @@ RoStep(s0) ==
 BrPlanned(s, b) == PlannedOf(s.br.plan[b + 1], s.wl.R)
 
 \* CloneSet control: the knob for batch b and UpgradeBatch (only ever lowers the partition)
+\* kind-specific knobs (control/partitionstyle/*/control.go): the value Initialize claims the workload with, the
+\* value the webhook holds it with, and the value for a batch
+PartitionKinds == {"CloneSet", "StatefulSet", "AdvStatefulSet", "DaemonSet"}
+InitKnob(s) == CASE s.wl.kind = "CloneSet"  -> [ktype |-> "pct", kval |-> 100]
+                 [] s.wl.kind = "DaemonSet" -> [ktype |-> "int", kval |-> s.wl.R]
+                 [] OTHER                   -> [ktype |-> "int", kval |-> 32767]
+HoldKnob(s) == IF s.wl.kind = "CloneSet" THEN [ktype |-> "pct", kval |-> 100] ELSE [ktype |-> "int", kval |-> 32767]
+DesiredKnob(s, st) ==
+  IF s.wl.kind = "CloneSet" THEN DesiredCloneSetKnob(st, s.wl.R)
+  ELSE [ktype |-> "int", kval |-> s.wl.R - PlannedOf(st, s.wl.R)]
+
 BrUpgradeKnob(s) ==
-  LET want == DesiredCloneSetKnob(s.br.plan[s.br.batch + 1], s.wl.R)
+  LET want == DesiredKnob(s, s.br.plan[s.br.batch + 1])
       cur  == PartitionCount(s.wl.ktype, s.wl.kval, s.wl.R)
       des  == PartitionCount(want.ktype, want.kval, s.wl.R)
-  IN  IF cur <= des THEN s ELSE [s EXCEPT !.wl.ktype = want.ktype, !.wl.kval = want.kval, !.wl.genOk = FALSE]
+      \* an int partition of 0 on a DaemonSet projects as "none" (its default)
+      w2  == want
+  IN  IF cur <= des THEN s ELSE [s EXCEPT !.wl.ktype = w2.ktype, !.wl.kval = w2.kval, !.wl.genOk = FALSE]
 
 \* labelling pass (PatchPodBatchLabel), counted only: live updated pods carrying the release's rollout-id
 LabelAfterPass(s) ==
@@ -468,8 +485,9 @@ BrStep(s0) ==
   ELSE
   CASE sR.br.phase = "Preparing" ->
          \* Initialize: claim the workload (control-info annotation, partition 100%, un-paused), record revisions
-         LET claimed == IF sR.wl.ctrl THEN sR ELSE [sR EXCEPT !.wl.ctrl = TRUE, !.wl.ktype = "pct", !.wl.kval = 100, !.wl.paused = FALSE,
-                                                              !.wl.genOk = (sR.wl.ktype = "pct" /\ sR.wl.kval = 100 /\ ~sR.wl.paused /\ sR.wl.genOk)]
+         LET ik == InitKnob(sR)
+             claimed == IF sR.wl.ctrl THEN sR ELSE [sR EXCEPT !.wl.ctrl = TRUE, !.wl.ktype = ik.ktype, !.wl.kval = ik.kval, !.wl.paused = FALSE,
+                                                              !.wl.genOk = (sR.wl.ktype = ik.ktype /\ sR.wl.kval = ik.kval /\ ~sR.wl.paused /\ sR.wl.genOk)]
          IN  fin([claimed EXCEPT !.br.phase = "Progressing", !.br.stableRev = sR.wl.stableRev, !.br.updRev = sR.wl.updRev, !.br.obsR = sR.wl.R])
     [] sR.br.phase = "Progressing" ->
          CASE sR.br.bstate \in {"", "Upgrading"} ->
@@ -503,7 +521,7 @@ Recount(s) ==
       all == Pods(s)
       rdy == s.wl.rd[1] + s.wl.rd[2] + s.wl.rd[3]
       s1 == [s EXCEPT !.wl.stRepl = all, !.wl.stUpdated = s.wl.n[u], !.wl.stUpdRdy = s.wl.rd[u]]
-  IN  IF s.wl.n[u] = all /\ s.wl.rd[u] >= all /\ all = s.wl.R THEN [s1 EXCEPT !.wl.stableRev = u] ELSE s1
+  IN  IF s.wl.n[u] = all /\ s.wl.rd[u] >= all /\ all = s.wl.R /\ s.wl.kind # "DaemonSet" THEN [s1 EXCEPT !.wl.stableRev = u] ELSE s1
 
 EnvObserved(s) == s.wl.genOk /\ s.wl.updRev = s.wl.specRev
 OldPods(s) == Pods(s) - s.wl.n[s.wl.specRev]
@@ -563,12 +581,12 @@ TickStep(s) ==
 WebhookHolds(s) ==
   /\ s.wl.R > 0
   /\ s.ro.exists /\ ~s.ro.deleting /\ s.ro.phase # "Disabled"
-  /\ (HasProvider(s) => s.wl.stRepl = s.wl.stUpdated)
+  /\ (HasProvider(s) /\ s.wl.kind = "CloneSet" => s.wl.stRepl = s.wl.stUpdated)   \* only handleCloneSet checks for a single revision
 
 Release(s, rev) ==
   LET s1 == [s EXCEPT !.user.rev = rev, !.wl.specRev = rev, !.wl.genOk = FALSE] IN
   IF rev = s.wl.specRev THEN s
-  ELSE IF WebhookHolds(s) THEN [s1 EXCEPT !.wl.ktype = "pct", !.wl.kval = 100, !.wl.inprog = TRUE] ELSE s1
+  ELSE IF WebhookHolds(s) THEN [s1 EXCEPT !.wl.ktype = HoldKnob(s).ktype, !.wl.kval = HoldKnob(s).kval, !.wl.inprog = TRUE] ELSE s1
 
 UserSet(s, a) ==
   CASE a = "user.approve" -> {[s EXCEPT !.ro.state = "StepReady"]}
@@ -592,7 +610,7 @@ UserActs == {"user.approve", "user.pause", "user.resume", "user.disable", "user.
 EnvActs  == {"env.observe", "env.update", "env.ready", "env.unready", "env.scale"}
 
 Modelled(p, a) ==
-  /\ p.wl.exists => (p.wl.kind = "CloneSet" /\ p.wl.style = "partition")
+  /\ p.wl.exists => (p.wl.kind \in PartitionKinds /\ p.wl.style = "partition")
   /\ a \in {"ro", "br", "tick"} \cup EnvActs \cup UserActs
 
 \* successor set of one action (singletons for the deterministic controller reconciles)
